@@ -181,7 +181,7 @@ func (a *instrAllocator) NewFile(holeSource pool.HoleSource, isExecutable bool, 
 	}
 	a.mu.Lock()
 	defer a.mu.Unlock()
-	l := &instrLeaf{LinkableLeaf: base, alloc: a, id: len(a.leaves) + 1}
+	l := &instrLeaf{LinkableLeaf: base, alloc: a, id: len(a.leaves) + 1, links: 1}
 	l.count(shareAccess, true)
 	a.leaves = append(a.leaves, l)
 	return l, nil
@@ -209,6 +209,32 @@ type instrLeaf struct {
 	alloc *instrAllocator
 	id    int
 	c     leafCounters // protected by alloc.mu
+	links int          // protected by alloc.mu
+}
+
+func (l *instrLeaf) Link() virtual.Status {
+	s := l.LinkableLeaf.Link()
+	if s == virtual.StatusOK {
+		l.alloc.mu.Lock()
+		l.links++
+		l.alloc.mu.Unlock()
+	}
+	return s
+}
+
+func (l *instrLeaf) Unlink() {
+	l.alloc.mu.Lock()
+	l.links--
+	l.alloc.mu.Unlock()
+	l.LinkableLeaf.Unlink()
+}
+
+// alive says whether the real leaf still has references (links or
+// opens); without any it has released its backing file.
+func (l *instrLeaf) alive() bool {
+	l.alloc.mu.Lock()
+	defer l.alloc.mu.Unlock()
+	return l.links+(l.c.OpenR-l.c.CloseR)+(l.c.OpenW-l.c.CloseW) > 0
 }
 
 // count must be called with alloc.mu held.
@@ -260,6 +286,16 @@ func (l *instrLeaf) VirtualWrite(ctx context.Context, buf []byte, offset uint64)
 }
 
 func (l *instrLeaf) VirtualSetAttributes(ctx context.Context, in *virtual.Attributes, requested virtual.AttributesMask, out *virtual.Attributes) virtual.Status {
+	if !l.alive() {
+		// pool_backed_file_allocator.go dereferences its released
+		// backing file here (a defect outside the NFSv4 server, which
+		// may legitimately resolve the handle of a half-closed file);
+		// shield the driver from it the way VirtualOpenSelf reports it.
+		return virtual.StatusErrStale
+	}
 	gateOf(ctx).pass("io")
+	if !l.alive() {
+		return virtual.StatusErrStale
+	}
 	return l.LinkableLeaf.VirtualSetAttributes(ctx, in, requested, out)
 }
